@@ -765,7 +765,7 @@ func verifC13BufClass(b int) string {
 }
 
 func TestVerif_C13_Mem(t *testing.T) {
-	m := mon.New("C13", "mem")
+	m := mon.New("C13", verifC13PartName())
 	defer m.Finish(t)
 	quick := m.Quick()
 	// fewer GC cycles: the library's flate writer pools (~1 MB per writer) are emptied by every cycle; performance only
@@ -1082,4 +1082,12 @@ func verifC13MaskSweep(m *mon.M) {
 			}
 		}
 	}
+}
+
+// the same workload also runs as part "asan" (AddressSanitizer build, thorough tier)
+func verifC13PartName() string {
+	if os.Getenv("VERIF_PART") == "asan" {
+		return "asan"
+	}
+	return "mem"
 }
